@@ -703,6 +703,7 @@ def run_pty(case):
     for s, x in zip(sigs, cfg.get("sig", [0, 0, 0])):
         signal.signal(s, {0: signal.SIG_DFL, 1: signal.SIG_IGN, 2: app_handler}[x])
     tios_before = termios.tcgetattr(slave)
+    tios_ref = [tios_before]       # what run() has to restore: the settings in force when that run() began
     scr = PtyScreen(input=tty_in, output=tty_out, bracketed_paste_mode=bool(cfg.get("paste")),
                     focus_reporting=bool(cfg.get("focus")))
     loop = make_loop(case["loop"], urwid)
@@ -805,7 +806,7 @@ def run_pty(case):
 
     def observe():
         try:
-            tios_ok_ = 1 if termios.tcgetattr(slave) == tios_before else 0
+            tios_ok_ = 1 if termios.tcgetattr(slave) == tios_ref[0] else 0
         except termios.error:
             tios_ok_ = -1                 # the descriptor is gone
         modes = {v: 0 for v in MODES.values()}
@@ -831,6 +832,16 @@ def run_pty(case):
         # the application caught); nothing but a final alarm raising ExitMainLoop
         S.plan = {}
         phase["second"] = phase["judge"] = True
+        # the application changes the tty settings between the sessions (echo and flow control toggled): the second
+        # run() must restore THESE, not the ones saved by the first start()
+        try:
+            t2 = termios.tcgetattr(slave)
+            t2[3] ^= termios.ECHO
+            t2[0] ^= termios.IXON
+            termios.tcsetattr(slave, termios.TCSANOW, t2)
+            tios_ref[0] = termios.tcgetattr(slave)
+        except termios.error:
+            pass
 
         def alarm3(l, d):
             raise urwid.ExitMainLoop()
